@@ -10,6 +10,7 @@ S1 == {"s1"}
 S2 == {"s1", "s2"}
 S3 == {"s1", "s2", "s3"}
 E0 == {}
+RankT == [t \in Targets |-> CASE t = "t1" -> 1 [] t = "t2" -> 2 [] t = "t3" -> 3 [] OTHER -> 0]
 E1 == {"e1"}
 E2 == {"e1", "e2"}
 
